@@ -191,6 +191,12 @@ func init() {
 				}
 				name := fmt.Sprintf("c%d", len(cases))
 				s, want := c15Template(name, t, l, r)
+				if len(cases)%6 == 4 && t != "" && !strings.Contains(l.name, "msg") && !strings.Contains(r.name, "msg") && !strings.Contains(l.name, "header") {
+					// the same run inside a literal block: there it stands for exactly its characters, blanks and line breaks included
+					s = "{template ." + name + "}" + r.pre + l.pre + l.tag + "{literal}" + t + "{/literal}" + r.tag + l.post + "{/template}\n"
+					want = l.out + t + r.out
+					l.name = "literal-content"
+				}
 				src.WriteString(s)
 				cases = append(cases, one{name, t, want, l.name, r.name})
 			}
@@ -316,6 +322,9 @@ func init() {
 		},
 		Floors: func(obs map[string]int64, cells map[string]bool, tier string) []string {
 			var why []string
+			if !cells["left:literal-content"] {
+				why = append(why, "no text run was placed in a literal block")
+			}
 			for _, l := range c15Left {
 				if !cells["left:"+l.name] {
 					why = append(why, "left neighbour never used: "+l.name)
